@@ -133,6 +133,21 @@ func (g *gen) rpcStage(in string) string {
 	return out
 }
 
+// arrayStage sends arrays by value and starts its worker with evaluated go-statement arguments.
+func (g *gen) arrayStage(in string) string {
+	out := g.ch()
+	g.nchan++
+	ac := fmt.Sprintf("ac%d", g.nchan)
+	g.decls = append(g.decls, fmt.Sprintf("%s := make(chan [2]int, %d)", ac, g.r.Intn(3)))
+	g.f("array-sent-by-copy")
+	g.proc(fmt.Sprintf("\t\tvar pair [2]int\n\t\tfor v := range %s {\n\t\t\tpair[n%%2] = v\n\t\t\tselect {\n\t\t\tcase %s <- pair:\n\t\t\t}\n\t\t\tpair[0] += 1000 // the receiver must have got a copy\n\t\t\t%s\n\t\t\tn++\n\t\t}\n\t\tclose(%s)", in, ac, g.p(), ac))
+	g.f("go-statement-evaluated-arguments")
+	g.nproc++
+	id := g.nproc
+	g.procs = append(g.procs, fmt.Sprintf("\tgo func(id, bias int, in <-chan [2]int, out chan<- int) {\n\t\tdefer func() { done <- id }()\n\t\tn := 0\n\t\tfor p := range in {\n\t\t\tout <- (p[0]%%1000 + p[1]*2 + bias) %% 9973\n\t\t\tn++\n\t\t}\n\t\tclose(out)\n\t\tlogs[id] = append(logs[id], n, bias)\n\t}(%d, cap(%s)+%d, %s, %s)", id, ac, g.r.Intn(9), ac, out))
+	return out
+}
+
 func (g *gen) sink(in string) {
 	g.f("sink")
 	g.proc(fmt.Sprintf("\t\tfor v := range %s {\n\t\t\tlogs[id] = append(logs[id], v)\n\t\t\tn++\n\t\t\t%s\n\t\t}", in, g.p()))
@@ -168,6 +183,8 @@ func Generate(r *rng.R) *Program {
 			open = append(open, g.structStage(take()))
 		case k == 5:
 			open = append(open, g.rpcStage(take()))
+		case k == 7 && g.r.Bool():
+			open = append(open, g.arrayStage(take()))
 		case k == 6 && len(open) < 3:
 			open = append(open, g.source())
 		default:
